@@ -28,6 +28,10 @@ type conf struct {
 	Start []int64 `json:"start"`
 	Dur   []int64 `json:"dur"`
 	NSubs int     `json:"nsubs"`
+	// Nest: how the subscribers are registered - 0: one flat MultiEpochHooks; 1: the first two grouped in an
+	// inner MultiEpochHooks ([[s1 s2] s3]); 2: the last two grouped ([s1 [s2 s3]]).  MultiEpochHooks is itself an
+	// EpochHooks, so nesting is legal; order of invocation and containment per subscriber must not depend on it.
+	Nest int `json:"nest"`
 }
 
 type call struct {
@@ -129,6 +133,13 @@ func newWorld(cf conf, unit time.Duration) *world {
 	for i := 0; i < cf.NSubs; i++ {
 		hooks = append(hooks, subHook{w: w, idx: i + 1})
 	}
+	switch {
+	case cf.Nest == 1 && len(hooks) >= 2:
+		hooks = append([]types.EpochHooks{types.NewMultiEpochHooks(hooks[0], hooks[1])}, hooks[2:]...)
+	case cf.Nest == 2 && len(hooks) >= 2:
+		n := len(hooks)
+		hooks = append(append([]types.EpochHooks{}, hooks[:n-2]...), types.NewMultiEpochHooks(hooks[n-2], hooks[n-1]))
+	}
 	w.k.SetHooks(types.NewMultiEpochHooks(hooks...))
 	for i := range cf.Start {
 		err := w.k.AddEpochInfo(w.ctx, types.EpochInfo{
@@ -219,7 +230,7 @@ func TestRecord(t *testing.T) {
 	}
 	units := []time.Duration{time.Nanosecond, time.Millisecond, time.Second, time.Hour}
 	for h := 0; h < nh; h++ {
-		cf := conf{NSubs: 1 + rng.Intn(3)}
+		cf := conf{NSubs: 1 + rng.Intn(3), Nest: h % 3}
 		nt := 1 + rng.Intn(4)
 		for i := 0; i < nt; i++ {
 			cf.Start = append(cf.Start, int64(rng.Intn(16))-5)
@@ -338,6 +349,7 @@ func TestReplay(t *testing.T) {
 			continue
 		}
 		done++
+		b.Conf.Nest = bi % 3 // the generated behaviours do not say how subscribers are grouped: all three ways
 		w := newWorld(b.Conf, time.Second)
 		for ki, gb := range b.Blocks {
 			blocks++
